@@ -319,8 +319,11 @@ def main(chk):
     chk.assumptions += ["AceGroup._line_to_ace (regex front end) is an assumed contract: returns an Ace/Remark for the line or raises ValueError/TypeError",
                         "f-string messages: `{line=}` of a string is modelled as quote+text+quote (no escapes)",
                         "IS(line) is the documented line shape [digits SPACE]* (permit|deny|remark) SPACE ...; is_line_for_acl is proved equal to it"]
+    chk.assumptions += ["Acl.line.fset is proved for an ACL that is not grouped by remarks, over assumed contracts for helpers.lines_wo_spaces (the non-empty lines, named by a ghost list), "
+                        "Acl._parse_type_name (returns or raises ValueError) and Acl.items.fset (stores the given objects in order); the log is ghost heap state Log.warned "
+                        "(the texts some WARNING record contains), written by logging.warning"]
     return chk.finish("other",
-                      "Deductive: every path of AceGroup._line_to_oace is accounted for (item kept <=> shape ok and parser returned; dropped => documented prefix or a "
+                      "Deductive: Acl.line.fset accounts for every body line (object, documented prefix, or warning; loop invariant over the ghost log); every path of AceGroup._line_to_oace is accounted for (item kept <=> shape ok and parser returned; dropped => documented prefix or a "
                       "warning whose text contains the line; NetmaskValueError/TypeError propagate) and helpers.is_line_for_acl decides exactly the documented shape, "
                       "terminating with bounded stack. Bounded (labelled): the accounting identity end to end with a capturing log handler.",
                       trusted_base=["z3 5.1.0", "cvc5", "pyvc", "spec/cisco_ref.py"])
